@@ -445,6 +445,14 @@ class Analysis:
         if form is None:
             self._typefacts(st, name)
 
+    NONNEG_CALLS = ('snprintf', 'vsnprintf', 'strlen', 'strlcpy', 'strlcat')
+
+    def rhs_nonneg(self, e):
+        """library contract: these calls return a count >= 0 (snprintf: negative only on an encoding error,
+        which the fixed "%d"-style formats used here cannot produce)"""
+        e = unwrap(e)
+        return isinstance(e, dict) and e.get('k') == 'call' and (callee_of(e) in self.NONNEG_CALLS or callee_of(e) in getattr(self, 'extra_nonneg', ()))
+
     def _typefacts(self, st, name):
         if name in self.unsigned:
             st.add_le(0, Lin.term(name))
@@ -468,7 +476,13 @@ class Analysis:
                     st.assign(name, Lin.term(name) + (1 if op == '++' else -1))
                 elif op in ('+=', '-='):
                     r = self.lin(ev.rhs, st)
-                    if r is None:
+                    if r is None and op == '+=' and self.rhs_nonneg(ev.rhs):
+                        # x grows by an unknown non-negative amount: lower bounds of x stay valid
+                        keep = [f for f in st.facts if f.t.get(name, 0) <= 0]
+                        st.facts, st._keys = [], set()
+                        for f in keep:
+                            st.add(f)
+                    elif r is None:
                         st.forget(name)
                         self._typefacts(st, name)
                     else:
@@ -621,6 +635,55 @@ class Analysis:
                         j = State(keep)
                         IN[t] = j
                         work.append(t)
+        # narrowing: the state reached is a post-fixpoint (widening may have dropped bounds that the edge guards
+        # re-establish); two descending rounds IN := F(IN) recover them and stay sound
+        order = []
+        seen = set()
+
+        def dfs(n):
+            stack = [(n, iter([t for (t, _l) in fn.blocks[n].succs]))]
+            seen.add(n)
+            while stack:
+                x, it = stack[-1]
+                for t in it:
+                    if t not in seen:
+                        seen.add(t)
+                        stack.append((t, iter([u for (u, _l) in fn.blocks[t].succs])))
+                        break
+                else:
+                    order.append(x)
+                    stack.pop()
+        dfs(fn.entry)
+        order.reverse()
+
+        def edge_out(pb, tb):
+            st = self.with_types(IN[pb].copy())
+            blk = fn.blocks[pb]
+            for ev in blk.events:
+                self.transfer(ev, st)
+                self.with_types(st)
+            outs = []
+            for (t, lab) in blk.succs:
+                if t != tb:
+                    continue
+                out = st.copy()
+                if blk.cond is not None and lab in (True, False):
+                    self.refine(out, blk.cond, lab)
+                outs.append(out)
+            return outs
+        for _round in range(2):
+            for bnode in order:
+                if bnode == fn.entry or bnode not in IN:
+                    continue
+                acc = None
+                for pb in fn.blocks[bnode].preds:
+                    if pb not in IN or fn.blocks[pb].noreturn:
+                        continue
+                    for o in edge_out(pb, bnode):
+                        o = self.with_types(o)
+                        acc = o if acc is None else acc.join(o)
+                if acc is not None:
+                    IN[bnode] = acc
         self.IN = IN
         # final pass: recompute obligations with the fixpoint states only
         self.obligations, self._ob_seen, self.returns = [], {}, []
